@@ -335,7 +335,8 @@ PROPS["C09"] = {
     "assumptions": PROPS["C08"]["assumptions"],
     "harnesses": [
         H(KW, "c08::c09_offers_n0_k1", _C09O, "N=0, 1 offer", [], tier="thorough", cost=600, **_WS),
-        H(KW, "c08::c09_offers_n1_k1", _C09O, "N=1, 1 offer", [], cost=1000, **_WS),
+        H(KW, "c08::c09_offer_one", "one offer from a fresh sender with one stored receiver: exactly one OfferOutMessage to the receiver's own connection (unless max_offers==0 or stopped), payload = (sender id, offer id, info hash), sender records exactly (receiver, offer id) with deadline clock+max_offer_age, reply last", "N=1 receiver, 1 offer, max_offers 0..2", [], cost=900, **_WS),
+        H(KW, "c08::c09_offers_n1_k1", _C09O, "N=1, 1 offer (general harness)", [], tier="thorough", cost=1200, mem_gb=54, timeout=3600),
         H(KW, "c08::c09_offers_n1_k2", _C09O, "N=1, 2 offers", [], tier="thorough", cost=1200, **_WS),
         H(KW, "c08::c09_answer_n0", _C09A, "N=0", [], tier="thorough", cost=600, **_WS),
         H(KW, "c08::c09_answer_n1", _C09A, "N=1", [], cost=1000, **_WS),
